@@ -394,6 +394,10 @@ fn classify(r: &HttpResp, op: &ReqOp, srv: &Server, stats: &mut Stats) -> String
     } else {
         "other"
     };
+    if body.starts_with("landing") && text.contains(&srv.token) {
+        // by design (server.rs:166-171 substitutes PATH_PREFIX / PROFILE_URL); recorded as an observation
+        stats.bump("landing_page_discloses_token");
+    }
     stats.bump(&format!("resp_status_{}", r.status));
     stats.bump(&format!("resp_body_{body}"));
     if acao != "-" || acam != "-" || acma != "-" || acah != "-" || acx != "-" {
@@ -638,6 +642,25 @@ impl Prop for C18 {
     }
     fn fixed_cases(&self, tier: Tier) -> Vec<Case> {
         let mut v = Vec::new();
+        // (first in the list, so that a defect in the token shape or a defect that depends on earlier
+        // requests is reported through a self-contained case)
+        // token statistics over several server starts (freshness: runtime evidence only)
+        v.push(Case { name: "tokens".to_string(), ops: vec![format!("tokens {}", if tier == Tier::Quick { 4 } else { 12 })] });
+        // several requests over one connection: a request under the prefix must not open anything for the next
+        let seqs: [&[(&str, &str)]; 6] = [
+            &[("GET", "/{T}/profile.json"), ("GET", "/profile.json"), ("GET", "/"), ("OPTIONS", "/")],
+            &[("OPTIONS", "/{T}/symbolicate/v5"), ("OPTIONS", "/symbolicate/v5"), ("POST", "/symbolicate/v5")],
+            &[("GET", "/"), ("GET", "/{T}/profile.json"), ("HEAD", "/{T}/profile.json"), ("GET", "/{U}/profile.json")],
+            &[("GET", "{T}/x"), ("GET", "/{T}/profile.json")],
+            &[("HEAD", "/"), ("GET", "/{T:0:38}/profile.json"), ("GET", "/{T}/profile.json"), ("GET", "/{X:38}/profile.json")],
+            &[("OPTIONS", "*"), ("GET", "*"), ("GET", "{T}"), ("GET", "/{T}")],
+        ];
+        for (i, s) in seqs.iter().enumerate() {
+            for (hi, hs) in HEADER_SETS.iter().enumerate() {
+                let ops = s.iter().map(|(m, t)| req_line("j", m, t, *hs, None)).collect();
+                v.push(Case { name: format!("seq{i}-h{hi}"), ops });
+            }
+        }
         let targets = boundary_targets();
         // boundary targets x methods x header sets; thorough: the full product on the json server and the
         // main methods on the gz server; quick: every target with every method once (header sets rotate)
@@ -669,23 +692,6 @@ impl Prop for C18 {
                 }
             }
         }
-        // several requests over one connection: a request under the prefix must not open anything for the next
-        let seqs: [&[(&str, &str)]; 6] = [
-            &[("GET", "/{T}/profile.json"), ("GET", "/profile.json"), ("GET", "/"), ("OPTIONS", "/")],
-            &[("OPTIONS", "/{T}/symbolicate/v5"), ("OPTIONS", "/symbolicate/v5"), ("POST", "/symbolicate/v5")],
-            &[("GET", "/"), ("GET", "/{T}/profile.json"), ("HEAD", "/{T}/profile.json"), ("GET", "/{U}/profile.json")],
-            &[("GET", "{T}/x"), ("GET", "/{T}/profile.json")],
-            &[("HEAD", "/"), ("GET", "/{T:0:38}/profile.json"), ("GET", "/{T}/profile.json"), ("GET", "/{X:38}/profile.json")],
-            &[("OPTIONS", "*"), ("GET", "*"), ("GET", "{T}"), ("GET", "/{T}")],
-        ];
-        for (i, s) in seqs.iter().enumerate() {
-            for (hi, hs) in HEADER_SETS.iter().enumerate() {
-                let ops = s.iter().map(|(m, t)| req_line("j", m, t, *hs, None)).collect();
-                v.push(Case { name: format!("seq{i}-h{hi}"), ops });
-            }
-        }
-        // token statistics over several server starts (freshness: runtime evidence only)
-        v.push(Case { name: "tokens".to_string(), ops: vec![format!("tokens {}", if tier == Tier::Quick { 4 } else { 12 })] });
         // the encoder on boundary inputs: the crate's own vectors, all lengths 0..40 with extreme bit patterns
         let mut enc = vec!["enc -".to_string(), "enc 47b2d8f260c2d48116044bc43fe3de0f".to_string(), "enc 1f74d74729abdc08f4f84e8f7f8c808c8ed92ee5".to_string()];
         for len in 1..=40usize {
